@@ -6,7 +6,8 @@ FUNCS = [('sqlparse.filters.tokens._CaseFilter.process', 'KeywordCaseFilter'),
          ('sqlparse.filters.tokens.IdentifierCaseFilter.process', None),
          ('sqlparse.filters.tokens.TruncateStringFilter.process', None),
          ('sqlparse.formatter.validate_options', None),
-         ('sqlparse.filters.others.StripCommentsFilter._process', 'sites')]
+         ('sqlparse.filters.others.StripCommentsFilter._process', 'sites'),
+         ('sqlparse.filters.others.StripCommentsFilter._process.<locals>._get_insert_token', None)]
 
 
 def filter_tables(rep):
@@ -33,7 +34,8 @@ def run(rep):
         assumptions=['str.upper / lower / capitalize are total and idempotent (uninterpreted `convert`)',
                      'a Name / String.Symbol token value is not blank (lexer fact)',
                      'StripCommentsFilter._process: per-site SMT obligations (every removed element is a comment that is not '
-                     'a hint, every inserted one a fresh whitespace token) in the thorough tier; "no two tokens fused or '
+                     'a hint, every inserted one a fresh whitespace token) in the thorough tier; the closure _get_insert_token '
+                     '(result: a whitespace leaf allocated by the call) in both tiers; "no two tokens fused or '
                      'split / idempotent" (re-lexing): bounded stand-in only'],
         trusted=['CPython re engine', 'str case-mapping methods'],
         extra_functions=['sqlparse.filters.others.StripCommentsFilter._process'])
